@@ -4,6 +4,7 @@ import (
 	"fmt"
 	"go/token"
 	"go/types"
+	"strings"
 
 	"golang.org/x/tools/go/ssa"
 )
@@ -20,6 +21,7 @@ func checkC14(p *Prog, r *Report) {
 	r.rule("C14.normalize.* (imported from C16): Rel.Normalize returns only the receiver or receiver.Invert(), and Invert is a field permutation that is its own inverse - so the pair AddTwoWayRel stores is the relationship it was given and its inverse")
 	nImp := r.importRules(func(r2 *Report) { checkC16(p, r2) }, "C14.normalize", "C16.normalize-shape", "C16.involution", "C16.normalize-oneway")
 	r.floor("imported Normalize/Invert obligations", nImp, 4)
+	r.rule("C14.remove-scope: Type.RemoveAttr (helpers included) deletes from and stores into the map of Attr values only, Type.RemoveRel the map of Rel values only, and each deletes from its map")
 	r.rule("C14.remove-splices-only: RemoveType, RemoveAttr and RemoveRel never overwrite an element of Schema.Types: a type leaves the list only through the splice")
 	for _, name := range []string{"(*Schema).RemoveType", "(*Schema).RemoveAttr", "(*Schema).RemoveRel"} {
 		g := p.Fn(name)
@@ -460,6 +462,41 @@ func checkRemoveExact(p *Prog, r *Report, pc *panicChecker) {
 				"the removal deletes a key other than the requested name, or matches elements on a field other than "+want)
 		})
 	}
+	// scope: RemoveAttr touches the attribute map only, RemoveRel the
+	// relationship map only, helpers included
+	for _, name := range []string{"(*Type).RemoveAttr", "(*Type).RemoveRel"} {
+		f := p.Fn(name)
+		if f == nil {
+			continue
+		}
+		want := "Attr"
+		if strings.HasSuffix(name, "Rel") {
+			want = "Rel"
+		}
+		right := 0
+		eachInstrOf(append([]*ssa.Function{f}, stringHelpers(f)...), func(ins ssa.Instruction) {
+			var m ssa.Value
+			switch x := ins.(type) {
+			case *ssa.Call:
+				if b, ok := x.Call.Value.(*ssa.Builtin); ok && b.Name() == "delete" {
+					m = x.Call.Args[0]
+				}
+			case *ssa.MapUpdate:
+				m = x.Map
+			}
+			if m == nil {
+				return
+			}
+			mt, _ := m.Type().Underlying().(*types.Map)
+			good := mt != nil && structName(mt.Elem()) == want
+			if good {
+				right++
+			}
+			r.decide(good, "C14.remove-scope", name+":"+p.describe(ins), p.pos(ins.Pos()), "changes the map of "+want+" values only",
+				name+" changes a map other than the type's map of "+want+" values: removing an absent "+strings.ToLower(want)+" is no longer a no-op when a field of the other kind has that name")
+		})
+		r.decide(right > 0, "C14.remove-scope", name+":deletes", p.pos(f.Pos()), "deletes from the map of "+want+" values", name+" (helpers included) never deletes from the map of "+want+" values")
+	}
 	// RemoveType: the spliced index is the index whose Name was tested
 	if f := p.Fn("(*Schema).RemoveType"); f != nil {
 		bf := pc.bf(f)
@@ -505,21 +542,24 @@ func checkRemoveExact(p *Prog, r *Report, pc *panicChecker) {
 				return
 			}
 			n++
-			good := false
-			for _, ef := range expandFacts(factsAt(c.Block())) {
-				if bo, isB := ef.Cond.(*ssa.BinOp); isB && bo.Op == token.EQL && ef.Truth {
-					for _, pr := range [][2]ssa.Value{{bo.X, bo.Y}, {bo.Y, bo.X}} {
-						if pr[1] != ssa.Value(f.Params[1]) {
-							continue
-						}
-						if base, _, ok2 := readsField(pr[0], "Name"); ok2 {
-							if ia, isIA := base.(*ssa.IndexAddr); isIA && ia.Index == recv.Index {
-								good = true
+			nameMatched := func(facts []edgeFact, idx ssa.Value) bool {
+				for _, ef := range expandFacts(facts) {
+					if bo, isB := ef.Cond.(*ssa.BinOp); isB && bo.Op == token.EQL && ef.Truth {
+						for _, pr := range [][2]ssa.Value{{bo.X, bo.Y}, {bo.Y, bo.X}} {
+							if pr[1] != ssa.Value(f.Params[1]) {
+								continue
+							}
+							if base, _, ok2 := readsField(pr[0], "Name"); ok2 {
+								if ia, isIA := base.(*ssa.IndexAddr); isIA && ia.Index == idx && sameSliceField(ia.X, recv.X) {
+									return true
+								}
 							}
 						}
 					}
 				}
+				return false
 			}
+			good := nameMatched(factsAt(c.Block()), recv.Index) || foundIndexPhi(pc.bf(f), recv.Index, c, nameMatched)
 			r.decide(good, "C14.remove-exact", name+":"+p.describe(c), p.pos(c.Pos()), "acts on the type whose Name equals the argument",
 				"the edit is applied to a type other than the one whose Name was compared with the argument")
 		})
@@ -808,4 +848,60 @@ func validatorFacts(ef edgeFact, newElem *ssa.Parameter) []validatorFact {
 		out = append(out, validatorFact{f2, isNew})
 	}
 	return out
+}
+
+// sameSliceField: both values are loads of the same field of the same base
+// (or the same value).
+func sameSliceField(a, b ssa.Value) bool {
+	if a == b {
+		return true
+	}
+	la, ok1 := a.(*ssa.UnOp)
+	lb, ok2 := b.(*ssa.UnOp)
+	if !ok1 || !ok2 {
+		return false
+	}
+	fa, ok1 := la.X.(*ssa.FieldAddr)
+	fb, ok2 := lb.X.(*ssa.FieldAddr)
+	return ok1 && ok2 && fa.X == fb.X && fa.Field == fb.Field
+}
+
+// foundIndexPhi: idx is a merge of "not found" markers (negative constants)
+// and of indices i for which `matched` holds on the edge that carries i (the
+// search loop's break), and at the site idx is proved non-negative: the
+// element at idx is the one that matched.
+func foundIndexPhi(bf *boundsFn, idx ssa.Value, site ssa.Instruction, matched func(facts []edgeFact, i ssa.Value) bool) bool {
+	phi, ok := idx.(*ssa.Phi)
+	if !ok {
+		return false
+	}
+	nIdx, nNeg := 0, 0
+	for k, e := range phi.Edges {
+		if cv, ok := constInt(e); ok {
+			if cv >= 0 {
+				return false
+			}
+			nNeg++
+			continue
+		}
+		pred := phi.Block().Preds[k]
+		facts := factsAt(pred)
+		if ifi, ok := pred.Instrs[len(pred.Instrs)-1].(*ssa.If); ok && pred.Succs[0] != pred.Succs[1] {
+			facts = append(facts, edgeFact{Cond: ifi.Cond, Truth: pred.Succs[0] == phi.Block(), From: pred})
+		}
+		if !matched(facts, e) {
+			return false
+		}
+		nIdx++
+	}
+	if nIdx == 0 {
+		return false
+	}
+	if nNeg > 0 {
+		a, o := bf.atom(idx)
+		if !bf.prove("0", 0, a, o, site, nil) {
+			return false
+		}
+	}
+	return true
 }
